@@ -179,6 +179,13 @@ func c04EvalSeq(c *Ctx, raw []byte) {
 			}
 			var results []res
 			check := func(r dom.ContainerBuilder, x, y W, o, what string) bool {
+				finite := dhAcyclic(r) && dhAcyclic(a)
+				for _, b := range bs {
+					finite = finite && dhAcyclic(b)
+				}
+				if !c.Direct("seq:result-and-inputs-are-finite-trees", finite, "after "+what+" a container or list contains itself") {
+					panic("harness: cyclic document, not observed any further")
+				}
 				ref := c04RefDoc(x, y, o == "append")
 				rw, rm := nodeWire(r), plainWire(r.AsMap())
 				results = append(results, res{r, canon(rw), what})
